@@ -22,7 +22,7 @@ RULE = (
     "Generated: instance (all shapes incl. flexible, zero durations) x choice "
     "sequence x reset points (the same observers are used for up to three "
     "consecutive episodes, resets may happen mid-episode); MakespanReward and "
-    "IdleTimeReward subscribed from the start (also on a dispatcher that is deep-copied mid-episode, copy and original then finished along different histories), and the same history through "
+    "IdleTimeReward subscribed from the start (also created with subscribe=False and subscribed by hand, the second-subscribed one unsubscribed at a generated step; also on a dispatcher that is deep-copied mid-episode, copy and original then finished along different histories), and the same history through "
     "SingleJobShopGraphEnv with either reward class. Oracle after every step "
     "k of the current episode: len(rewards) == k, every reward <= 0, "
     "sum(makespan rewards) == -max end (independent checker), sum(idle "
@@ -203,6 +203,43 @@ def check_case(case, ctx):
                 f"{name} (taken after {k_fork} of {n} dispatches): {rname} rewards {r.rewards}, expected {n} non-positive rewards summing to {want}",
             )
     ctx.count("forks")
+
+    # subscription variants: rewards created with subscribe=False and
+    # subscribed by hand before the first dispatch (makespan first, idle time
+    # second); the second one is unsubscribed at a generated step
+    drv4 = Driver(inst, None)
+    d4 = drv4.dispatcher
+    mk4 = MakespanReward(d4, subscribe=False)
+    idle4 = IdleTimeReward(d4, subscribe=False)
+    d4.subscribe(mk4)
+    d4.subscribe(idle4)
+    k_unsub = (3 * len(history) + n) % (n + 1)
+    frozen = None
+    for kk in range(n):
+        if kk == k_unsub:
+            d4.unsubscribe(idle4)
+            frozen = list(idle4.rewards)
+        a, b = history[kk] if kk < len(history) else (0, 0)
+        drv4.step(a, b, "ready")
+        rows4 = fp.schedule_rows(d4.schedule)
+        ctx.check(
+            len(mk4.rewards) == kk + 1 and sum(mk4.rewards) == -feasible.makespan(rows4),
+            "hand-subscribed:MakespanReward",
+            f"MakespanReward(subscribe=False) subscribed by hand before the first dispatch (IdleTimeReward unsubscribed at step {k_unsub}): "
+            f"after dispatch {kk} rewards {mk4.rewards}, expected {kk + 1} rewards summing to {-feasible.makespan(rows4)}",
+        )
+        if frozen is None:
+            ctx.check(
+                len(idle4.rewards) == kk + 1 and sum(idle4.rewards) == -idle_from_rows(rows4),
+                "hand-subscribed:IdleTimeReward",
+                f"IdleTimeReward(subscribe=False) subscribed by hand: after dispatch {kk} rewards {idle4.rewards}, expected sum {-idle_from_rows(rows4)}",
+            )
+        else:
+            ctx.check(
+                idle4.rewards == frozen,
+                "unsubscribed-still-rewarded",
+                f"IdleTimeReward unsubscribed at step {k_unsub} still received rewards: {idle4.rewards} (had {frozen})",
+            )
 
     # the same through the environment (first complete episode's choices)
     instance = build_instance(inst)
